@@ -21,6 +21,11 @@ struct SimFile {
   Rng io_rng{1};
   long size_cap = -1;              // writes that would grow the file beyond this fail (simulated full disk; only used to contain known-defect runs)
   bool cap_hit = false;
+  // synthetic read-only content (function of the offset), for messages too large to store
+  bool synth = false;
+  long synth_len = 0;
+  uint64_t synth_seed = 0;
+  static inline uint8_t synth_byte(uint64_t seed, uint64_t off) { uint64_t x = seed + (off >> 3) * 0x9E3779B97F4A7C15ull; x ^= x >> 29; x *= 0xBF58476D1CE4E5B9ull; x ^= x >> 32; return (uint8_t)(x >> ((off & 7) * 8)); }
   void reset_logs() { wlog.clear(); n_read_calls = n_write_calls = n_seek_calls = bytes_written = bytes_read = 0; short_reads = short_writes = 0; closed = false; cap_hit = false; pos = 0; }
 };
 
